@@ -1,6 +1,6 @@
 import AmrK.ReaderRProofs
 import AmrK.Codec
-import AmrK.ConstantsProps
+import AmrK.Obligations.FortranOrder
 /-! # C01 — box data read through the indexing interface is exactly what is on disk
 
 Property theorems only (helper lemmas live in `ReaderRProofs`, `SliceLemmas`, `Codec*`).
@@ -59,6 +59,12 @@ theorem read_slice (pre line payload post : Bytes) (h : Hdr) (n nf : Nat)
 theorem header_codec (lo hi : List Int) (nf : Nat) (hlo : lo ≠ []) (hhi : hi ≠ []) (hlen : lo.length = hi.length) :
     parseFabHeader (canonB lo hi nf) = some ⟨lo, hi, (nf : Int)⟩ :=
   parse_canonB lo hi nf hlo hhi hlen
+
+/-- every reshape / flatten of box data in the package is in Fortran order (x fastest), the layout
+    `block` assumes (regenerated from the sources on every run) -/
+theorem x_fastest_everywhere :
+    Generated.nonFortranReshapes = [("amr_kitchen/mandoline/utils.py", "expand_array", "reshape")] :=
+  Generated.fortran_order_everywhere
 
 /-- non-vacuity: a concrete 2x1x1 box with two fields read through `[-1]` returns the second block -/
 def exPayload : Bytes := (List.range 32).map fun i => i.toUInt8
